@@ -20,7 +20,7 @@ class CM:
 
 class Susp:
     def __await__(self):
-        r = yield 7
+        r = yield
         return r
 '''
 
@@ -313,6 +313,14 @@ def make_program(rnd, features, threads=False):
                         ind + 'except (ValueError, StopIteration):', ind + '    pass']
             return [ind + 'try:', ind + '    g1 = %s(%s)' % (tgt, a), ind + '    g2 = %s(%s)' % (tgt, a), ind + '    next(g1)', ind + '    next(g2)',
                     ind + '    next(g1)', ind + '    next(g2)', ind + '    g1.close()', ind + 'except (ValueError, StopIteration):', ind + '    pass']
+        if k == 'co' and 'asyncio' in features and rnd.random() < 0.6:
+            # the same coroutines as tasks of a real event loop: every task runs in its own copy of the context
+            cos = [x for x in names if kinds[x] == 'co']
+            calls = ['P.fn(%r)(%d, %d)' % (rnd.choice(cos), rnd.randrange(0, 12), rnd.randrange(0, 4)) for _ in range(rnd.randrange(2, 4))]
+            calls[0] = '%s(%s)' % (tgt, a)
+            return [ind + 'import asyncio', ind + 'async def _grp():',
+                    ind + '    return await asyncio.gather(%s, return_exceptions=True)' % ', '.join(calls),
+                    ind + 'asyncio.run(_grp())']
         if k == 'co' and 'cotasks' in features and rnd.random() < 0.6:
             # two coroutines alive at once on one thread, stepped like tasks of an event loop: the one started first
             # may finish first while the other is still suspended
